@@ -166,3 +166,11 @@ package redisemu
 //@ include thinhandler
 //@ requires !gParsedOK
 //@ ensures [C02] min.refused: old(istype(args["decrement"], int64) && unbox(args["decrement"], int64) == -9223372036854775808) ==> istype(output.data, respErrorString) && !mutated
+
+// C05 / C06: SINTERCARD refuses a numkeys that is not the number of keys given, without touching anything
+//@ func fnSInterCard
+//@ prop C05 C06
+//@ include thinhandler
+//@ loop 1 invariant len(strs) == i && 0 <= i && i <= len(keyNames) && !mutated && !bumped && !removedKey && lockMode(ctx.dsc) && dscOK(ctx.dsc)
+//@ ensures internal [C05,C06] numkeys.mismatch: numkeys != len(keyNames) ==> istype(output.data, respErrorString) && !mutated
+//@ ensures internal [C05,C06] readonly: !mutated
